@@ -760,8 +760,10 @@ func (w *WalletManager) NewAddress(addrClass uint16) (string, error) {
 	}
 
 	var address string
+	var issued []*keystore.ManagedAddress
 	err := mwdb.Update(w.db, func(tx mwdb.DBTransaction) error {
 		mas, err := w.ksmgr.NextAddresses(tx, w.chainFetcher.CheckScriptHashUsed, false, 1, w.config.Wallet.Settings.AddressGapLimit, addrClass)
+		issued = mas
 		if err != nil {
 			logging.CPrint(logging.ERROR, "failed to nextAddress", logging.LogFormat{
 				"err": err,
@@ -789,6 +791,8 @@ func (w *WalletManager) NewAddress(addrClass uint16) (string, error) {
 		return nil
 	})
 	if err != nil {
+		// nothing was committed: the keystore cache must not keep the address either
+		w.ksmgr.ForgetAddresses(issued)
 		return "", err
 	}
 	return address, nil
